@@ -103,6 +103,11 @@ def strip (s : Str) : Str := rstrip (lstrip s)
 /-- `bool(s.strip())` -/
 def isBlank (s : Str) : Bool := s.all isSpace
 
+/-- `sub in s` -/
+def containsSub (sub : Str) : Str → Bool
+  | [] => sub.isEmpty
+  | c :: cs => sub.isPrefixOf (c :: cs) || containsSub sub cs
+
 /-! ### joins, numbers -/
 
 def join (sep : Str) : List Str → Str
